@@ -281,6 +281,11 @@ def truth(ctx, st, x):
     """SMT truthiness of a value."""
     if isinstance(x, SB):
         return x.f
+    th = ctx.config.get("truth_hook")
+    if th:
+        r = th(None, st, x)
+        if r is not None:
+            return r
     if isinstance(x, SV):
         if x.known:
             return z3.BoolVal(bool(x.conc))
